@@ -48,6 +48,8 @@ func c13Progs() []c13Prog {
 		{"LD IX,0104; JP (IX) loop", []uint8{0xDD, 0x21, 0x04, 0x01, 0xDD, 0xE9}, false, 0x0104},
 		{"LD IX,0104; IN A,(C); JP (IX) loop", []uint8{0xDD, 0x21, 0x04, 0x01, 0xED, 0x78, 0xDD, 0xE9}, false, 0x0106},
 		{"LD R,A in a loop", []uint8{0xED, 0x4F, 0x18, 0xFC}, false, 0x0102},
+		// the whole memory reads DD: an endless run of prefixes
+		{"memory full of DD", nil, false, 0x0104},
 	}
 }
 
@@ -60,6 +62,7 @@ type c13Scenario struct {
 	Runs      int    `json:"runs,omitempty"`              // number of consecutive Run calls by the caller (0 = 1)
 	R0        int    `json:"r0,omitempty"`                // initial refresh register (0 = base vector's, else value+1)
 	SepCtx    bool   `json:"separate_contexts,omitempty"` // Run #1 gets the cancellable context, later Runs a fresh one nobody cancels
+	PanicAt   int    `json:"panic_at_read,omitempty"`     // the memory callback panics at this caller read (Run is left by unwinding)
 	Sched     []int  `json:"schedule,omitempty"`
 }
 
@@ -113,7 +116,11 @@ type c13Outcome struct {
 	firstErrs []error
 	// lastCtxLive: the last Run had a context that was never cancelled
 	lastCtxLive bool
+	// unwound: Run was left by a panic raised in a device callback (recovered by the caller)
+	unwound bool
 }
+
+type c13DevicePanic struct{}
 
 func (o *c13Outcome) sig() string {
 	return fmt.Sprintf("returned=%v err=%v PC=%04X HALT=%v reads=%d", o.returned, o.err, o.final.PC, o.halt, o.reads)
@@ -132,6 +139,11 @@ func c13Body(bg *[65536]uint8, sc *c13Scenario, world **c13World) func(s *sched.
 		rt.Install(s)
 		w := &c13World{mem: obs.NewMem(bg), out: &c13Outcome{cancelAt: -1}}
 		*world = w
+		if p.code == nil {
+			w.mem = obs.NewMem(ddBackground())
+			world2 := w
+			_ = world2
+		}
 		w.mem.Poke(0x0100, p.code...)
 		io := &obs.IO{X: 0x42, Fixed: true}
 		cpu := &z80.CPU{Memory: w.mem, IO: io}
@@ -165,6 +177,9 @@ func c13Body(bg *[65536]uint8, sc *c13Scenario, world **c13World) func(s *sched.
 		w.mem.Hook = func(write bool, addr uint16) {
 			if s.Current() == caller && !write {
 				callerReads++
+				if sc.PanicAt > 0 && callerReads == sc.PanicAt {
+					panic(c13DevicePanic{})
+				}
 			}
 			if s.RunLength() >= 40 {
 				// fairness independent of how Run polls: a thread that passed 40 points in a
@@ -183,6 +198,20 @@ func c13Body(bg *[65536]uint8, sc *c13Scenario, world **c13World) func(s *sched.
 			out.cancelAt = 0
 		}
 		caller = s.Go("caller", func() {
+			if sc.PanicAt > 0 {
+				// the device panics inside a callback; the embedder recovers. Run was left by unwinding.
+				defer func() {
+					if r := recover(); r != nil {
+						if _, ok := r.(c13DevicePanic); !ok {
+							panic(r)
+						}
+						out.returned = true
+						out.unwound = true
+						out.reads = callerReads
+						out.final = cpu.States
+					}
+				}()
+			}
 			err := cpu.Run(ctx)
 			for i := 1; i < sc.Runs; i++ {
 				// repeated calls on the same CPU: a flag, goroutine or context kept from the
@@ -263,6 +292,13 @@ func c13Judge(bg *[65536]uint8, sc *c13Scenario, x *sched.Scheduler, w *c13World
 			d = append(d, fmt.Sprintf("Run call #%d returned %v although nothing ever cancels the context", i+1, e))
 		}
 	}
+	if out.unwound {
+		// only the goroutine accounting applies
+		if leaked > 0 {
+			return d
+		}
+		return nil
+	}
 	// error value
 	switch {
 	case out.err == nil:
@@ -291,6 +327,9 @@ func c13Judge(bg *[65536]uint8, sc *c13Scenario, x *sched.Scheduler, w *c13World
 	}
 	// whole number of Steps: a Step-driven twin reaches the same state with the same number of reads
 	tm := obs.NewMem(bg)
+	if p.code == nil {
+		tm = obs.NewMem(ddBackground())
+	}
 	tm.Poke(0x0100, p.code...)
 	twin := &z80.CPU{Memory: tm, IO: &obs.IO{X: 0x42, Fixed: true}}
 	base := baseVector(0)
@@ -372,6 +411,10 @@ func checkC13(c *Ctx) {
 						for _, r0 := range []int{0x00, 0x01, 0x7E, 0xFF} {
 							scenarios = append(scenarios, c13Scenario{Prog: pi, Name: progs[pi].name, BP: bp, Canceller: can, R0: r0 + 1})
 						}
+					}
+					if bp == 0 && !dl && can != 1 && progs[pi].code != nil {
+						// a device callback panics while Run is executing (recovered by the caller): no goroutine may stay behind
+						scenarios = append(scenarios, c13Scenario{Prog: pi, Name: progs[pi].name + " (device panics at the 3rd read)", BP: bp, Canceller: can, PanicAt: 3})
 					}
 					if progs[pi].terminating && !dl && can == 2 && bp != 1 {
 						// Run #1 under the cancellable context (ends by HALT or at the breakpoint), Run #2 under a live context of its own
@@ -509,4 +552,17 @@ func headInts(a []int, n int) []int {
 		return a[:n]
 	}
 	return a
+}
+
+var ddBg *[65536]uint8
+
+func ddBackground() *[65536]uint8 {
+	if ddBg == nil {
+		b := new([65536]uint8)
+		for i := range b {
+			b[i] = 0xDD
+		}
+		ddBg = b
+	}
+	return ddBg
 }
